@@ -786,3 +786,111 @@ Proof.
   - destruct (group_branch_ok s n e Hs (PG e eq_refl)) as [r Er]. rewrite Er. cbn [bind]. destruct r; eexists; reflexivity.
   - cbn [bind]. eexists; reflexivity.
 Qed.
+
+(* ================================================================== *)
+(* statements used by Props/Properties_C11.v *)
+
+(* the hand-written if-chain against what the C function answered on the dictionary *)
+Definition dict_ok (chk : bool) (e : string * Z * N * Z * Z) : bool :=
+  let '(s, r, t, a1, a2) := e in
+  match sscanf_canon (type_sscanf chk (cstr s) (Some SIZEOF_ATTR_UNION)) with
+  | Some (r', t', a1', a2') => (r =? r')%Z && (t =? t') && (a1 =? a1')%Z && (a2 =? a2')%Z
+  | None => false
+  end.
+(* the dictionary has no byte 0xE0: both variants of hwloc__type_match answer the same *)
+Lemma dict_agrees : forallb (fun e => dict_ok false e && dict_ok true e) type_sscanf_dict_tbl = true.
+Proof. vm_compute. reflexivity. Qed.
+Lemma dict_agrees_chk chk : forallb (dict_ok chk) type_sscanf_dict_tbl = true.
+Proof.
+  pose proof dict_agrees as H. rewrite forallb_forall in *. intros e He. specialize (H e He).
+  apply andb_true_iff in H. destruct H as [H1 H2]. destruct chk; assumption.
+Qed.
+
+(* names[] holds exactly the seven HWLOC_OBJ_OSDEV_* bits, each once *)
+Lemma names_cover_osdev_bits :
+  osdev_known_mask = N.lor HWLOC_OBJ_OSDEV_STORAGE (N.lor HWLOC_OBJ_OSDEV_MEMORY (N.lor HWLOC_OBJ_OSDEV_GPU
+     (N.lor HWLOC_OBJ_OSDEV_COPROC (N.lor HWLOC_OBJ_OSDEV_NETWORK (N.lor HWLOC_OBJ_OSDEV_OPENFABRICS HWLOC_OBJ_OSDEV_DMA)))))
+  /\ NoDup (map osdev_bit osdev_names_tbl) /\ length osdev_names_tbl = 7%nat.
+Proof.
+  split; [vm_compute; reflexivity|]. split; [|reflexivity].
+  vm_compute. repeat (constructor; [cbn; intros H; repeat destruct H as [H|H]; try discriminate H; try exact H|]). constructor.
+Qed.
+
+(* hwloc_obj_type_string(t) parses back to t, every type *)
+Definition type_string_ok (chk : bool) (t : N) : bool :=
+  match type_sscanf chk (cstr (obj_type_string t)) (Some SIZEOF_ATTR_UNION) with
+  | Ok (Some (t', _)) => t' =? t
+  | _ => false
+  end.
+Lemma type_string_roundtrip_all : forallb (fun t => type_string_ok false t && type_string_ok true t) all_types = true.
+Proof. vm_compute. reflexivity. Qed.
+Lemma type_string_roundtrip_lemma chk t : t < HWLOC_OBJ_TYPE_MAX -> type_string_ok chk t = true.
+Proof.
+  intros Ht. pose proof (forall_types _ type_string_roundtrip_all t Ht) as H.
+  apply andb_true_iff in H. destruct H as [H1 H2]. destruct chk; assumption.
+Qed.
+
+(* ---- the OS-device loop on the code as it is (while) ---- *)
+Definition UNKNOWN_BIT_WORD : N := 4096.        (* XML osdev_type="4096" *)
+Lemma osdev_loop_witness :
+  UNKNOWN_BIT_WORD <= Strto.ULONG_MAX /\
+  (forall longn c acc, osdev_pass longn (UNKNOWN_BIT_WORD, c, acc) = (UNKNOWN_BIT_WORD, c, acc)) /\
+  (forall fuel longn c acc, osdev_while fuel longn (UNKNOWN_BIT_WORD, c, acc) = None) /\
+  (forall flags, flag_set flags HWLOC_OBJ_SNPRINTF_FLAG_SHORT_NAMES = false ->
+     type_snprintf_pieces_gen true (mk HWLOC_OBJ_OS_DEVICE 0 0 0 0 0 UNKNOWN_BIT_WORD) flags = PrLoop).
+Proof.
+  split; [vm_compute; discriminate|]. split; [|split].
+  - intros longn c acc. apply osdev_pass_state_repeats. reflexivity.
+  - intros fuel longn c acc. apply osdev_while_stuck; [discriminate|reflexivity].
+  - intros flags Hs. unfold type_snprintf_pieces_gen. cbn [to_type mk to_os].
+    change (tcache HWLOC_OBJ_OS_DEVICE) with false. rewrite Hs.
+    replace ((HWLOC_OBJ_OS_DEVICE =? HWLOC_OBJ_MISC) || (HWLOC_OBJ_OS_DEVICE =? HWLOC_OBJ_MACHINE) || (HWLOC_OBJ_OS_DEVICE =? HWLOC_OBJ_NUMANODE)
+           || (HWLOC_OBJ_OS_DEVICE =? HWLOC_OBJ_MEMCACHE) || (HWLOC_OBJ_OS_DEVICE =? HWLOC_OBJ_PACKAGE) || (HWLOC_OBJ_OS_DEVICE =? HWLOC_OBJ_DIE)
+           || (HWLOC_OBJ_OS_DEVICE =? HWLOC_OBJ_CORE) || (HWLOC_OBJ_OS_DEVICE =? HWLOC_OBJ_PU)) with false by reflexivity.
+    change (HWLOC_OBJ_OS_DEVICE =? HWLOC_OBJ_GROUP) with false. change (HWLOC_OBJ_OS_DEVICE =? HWLOC_OBJ_BRIDGE) with false.
+    change (HWLOC_OBJ_OS_DEVICE =? HWLOC_OBJ_PCI_DEVICE) with false. rewrite N.eqb_refl. cbv iota.
+    apply osdev_normal_unknown_loops. vm_compute. discriminate.
+Qed.
+
+(* ---- hwloc__type_match on the code as it is ---- *)
+Definition E0_WITNESS : list N := [112; 117; 224; 224; 0].      (* "pu\xE0\xE0" *)
+Lemma sscanf_e0_witness :
+  cstring E0_WITNESS 4 /\ bytes_ok E0_WITNESS /\ type_sscanf false E0_WITNESS (Some SIZEOF_ATTR_UNION) = Oob
+  /\ type_sscanf true E0_WITNESS (Some SIZEOF_ATTR_UNION) = Ok (Some (HWLOC_OBJ_PU, AWnone)).
+Proof.
+  split; [|split; [|split; vm_compute; reflexivity]].
+  - split; [reflexivity|]. intros k Hk.
+    assert (C : k = 0 \/ k = 1 \/ k = 2 \/ k = 3) by lia.
+    repeat destruct C as [-> | C]; try subst k; eexists; (split; [reflexivity|discriminate]).
+  - unfold bytes_ok, E0_WITNESS. repeat constructor.
+Qed.
+
+(* ---- the attribute printer when an I/O object carries memory (never after load) ---- *)
+Definition IO_MEMORY_WITNESS : aobj :=
+  AO HWLOC_OBJ_PCI_DEVICE 1048576 0 0 0 0 0 0 0 0 0 0 0 2 0 32902 4307 512 (lit "Ethernet") false [] [].
+Lemma attr_io_memory_witness :
+  exists st, attr_snprintf (repeat 170 96) IO_MEMORY_WITNESS [32] HWLOC_OBJ_SNPRINTF_FLAG_MORE_ATTRS = PrOk (Some st)
+    /\ ps_ret st = 65%nat /\ nth 52 (ps_buf st) 1 = 0 /\ ~ In 0 (firstn 52 (ps_buf st)).   (* returns 65, the text has 52 bytes *)
+Proof.
+  eexists. split; [vm_compute; reflexivity|]. split; [reflexivity|]. split; [reflexivity|].
+  vm_compute. intros H. repeat destruct H as [H|H]; try discriminate H; exact H.
+Qed.
+
+Lemma roundtrip_osdev_lemma chk loop o flags :
+  to_type o = HWLOC_OBJ_OS_DEVICE -> to_os o <= osdev_known_mask ->
+  N.land flags HWLOC_OBJ_SNPRINTF_FLAG_SHORT_NAMES = 0 -> roundtrip_ok chk loop o flags = true.
+Proof.
+  intros Ht Hw Hf. apply (roundtrip_lift chk loop o (mk HWLOC_OBJ_OS_DEVICE 0 0 0 0 0 (to_os o)) flags).
+  - apply in_rt_osdev, Hw.
+  - exact Ht.
+  - unfold tkey. rewrite Ht. reflexivity.
+  - exact Hf.
+Qed.
+
+Lemma type_text_function_lemma loop o1 o2 flags : to_type o1 = to_type o2 -> tkey o1 = tkey o2 ->
+  type_snprintf_pieces_gen loop o1 flags = type_snprintf_pieces_gen loop o2 flags /\
+  forall init, type_snprintf_gen loop init o1 flags = type_snprintf_gen loop init o2 flags.
+Proof.
+  intros Ht Hk. pose proof (type_pieces_function_of_key loop o1 o2 flags Ht Hk) as E. split; [exact E|].
+  intros init. unfold type_snprintf_gen. now rewrite E.
+Qed.
